@@ -628,6 +628,10 @@ class Run:
             # so does the harness - unless the run opts in to exercising the known findings (o2o_steal), which ends the history there.
             if self.cfg.get("o2o_steal"):
                 self.unloaded_note = True
+            elif not self.cfg.get("autoflush", True):
+                # without autoflush the read would load the database's (possibly stale) value over pending in-memory changes of the
+                # other side; that is the documented effect of autoflush=False, not backref behaviour - not generated
+                return "skip"
             else:
                 pa["obj"].p
         if a2 % 3 == 0:
